@@ -45,6 +45,13 @@ func Strip(v ssa.Value) ssa.Value {
 						v = sv
 						continue
 					}
+					// a result kept in memory across `rundefers` (a function with defer statements
+					// stores each result, runs the deferred calls and loads it back): the value stored
+					// just before in the same block
+					if sv := sameBlockStore(a, x); sv != nil {
+						v = sv
+						continue
+					}
 				}
 				if fv, ok := x.X.(*ssa.FreeVar); ok {
 					// read inside a function literal of a variable of the enclosing function that is
@@ -2093,6 +2100,9 @@ func PhiCutsFrom(fn *ssa.Function, starts []*ssa.BasicBlock, cut map[Edge]bool) 
 				}
 				kn, bv := evalBoolUnder(e, reach, all, 0)
 				if !kn {
+					kn, bv = valueFixedByBranch(e, pred, phi.Block())
+				}
+				if !kn {
 					known = false
 					break
 				}
@@ -2152,6 +2162,11 @@ func evalBoolUnder(v ssa.Value, reach map[*ssa.BasicBlock]bool, cut map[Edge]boo
 				continue
 			}
 			k, b := evalBoolUnder(e, reach, cut, depth+1)
+			if !k {
+				// the incoming value is what a branch that dominates this way of reaching the merge
+				// tested (`if !asAtt { ... } ; if asAtt`): its outcome on that way is known
+				k, b = valueFixedByBranch(e, pred, x.Block())
+			}
 			if !k || (any && b != val) {
 				known = false
 				break
@@ -2234,4 +2249,101 @@ func singleAssignedBeforeClosure(a *ssa.Alloc, lit *ssa.Function) ssa.Value {
 		return st.Val
 	}
 	return nil
+}
+
+// sameBlockStore: the load ld of the scalar local a follows, in its block, a store to a with only
+// instructions in between that cannot write a (a is never captured by a writing function literal and
+// its address is not passed on): the stored value.
+func sameBlockStore(a *ssa.Alloc, ld *ssa.UnOp) ssa.Value {
+	switch a.Type().(*types.Pointer).Elem().Underlying().(type) {
+	case *types.Struct, *types.Array:
+		return nil
+	}
+	if a.Referrers() == nil {
+		return nil
+	}
+	for _, r := range *a.Referrers() {
+		switch x := r.(type) {
+		case *ssa.Store:
+			if x.Addr != ssa.Value(a) {
+				return nil
+			}
+		case *ssa.UnOp, *ssa.DebugRef:
+		case *ssa.MakeClosure:
+			fn, _ := x.Fn.(*ssa.Function)
+			for i, b := range x.Bindings {
+				if b != ssa.Value(a) || fn == nil || i >= len(fn.FreeVars) {
+					continue
+				}
+				if refs := fn.FreeVars[i].Referrers(); refs != nil {
+					for _, fr := range *refs {
+						if st, ok := fr.(*ssa.Store); ok && st.Addr == ssa.Value(fn.FreeVars[i]) {
+							return nil
+						}
+					}
+				}
+			}
+		default:
+			return nil
+		}
+	}
+	var last *ssa.Store
+	for _, in := range ld.Block().Instrs {
+		if in == ssa.Instruction(ld) {
+			break
+		}
+		if st, ok := in.(*ssa.Store); ok && st.Addr == ssa.Value(a) {
+			last = st
+		}
+	}
+	if last == nil {
+		return nil
+	}
+	return last.Val
+}
+
+// valueFixedByBranch: on the way pred -> merge, the boolean v has a value fixed by a branch on v:
+// the branch ends pred itself and one of its edges leads to merge, or one of its outcomes dominates
+// pred.
+func valueFixedByBranch(v ssa.Value, pred, merge *ssa.BasicBlock) (bool, bool) {
+	strip := func(c ssa.Value) (ssa.Value, bool) {
+		neg := false
+		for {
+			if u, ok := c.(*ssa.UnOp); ok && u.Op == token.NOT {
+				c, neg = u.X, !neg
+				continue
+			}
+			return c, neg
+		}
+	}
+	v0, vneg := strip(v)
+	for _, d := range pred.Parent().Blocks {
+		if len(d.Instrs) == 0 {
+			continue
+		}
+		ifi, ok := d.Instrs[len(d.Instrs)-1].(*ssa.If)
+		if !ok {
+			continue
+		}
+		c0, cneg := strip(ifi.Cond)
+		if c0 != v0 {
+			continue
+		}
+		for idx := 0; idx < 2; idx++ {
+			su := d.Succs[idx]
+			onWay := false
+			if d == pred && su == merge && d.Succs[1-idx] != merge {
+				onWay = true
+			} else if len(su.Preds) == 1 && (su == pred || su.Dominates(pred)) {
+				onWay = true
+			}
+			if !onWay {
+				continue
+			}
+			// cond true on edge 0; cond == c0 XOR cneg; v == v0 XOR vneg
+			c0val := (idx == 0) != cneg
+			return true, c0val != vneg
+		}
+	}
+	return false, false
 }
